@@ -59,6 +59,7 @@ struct SubState {
     count: u64,
     last_delivery: Option<Instant>,
     closed: bool,
+    full_windows_held: u64,
 }
 
 fn key_of(kind: &Kind, e: &MEvent) -> Option<String> {
@@ -97,6 +98,8 @@ fn matcher_of(kind: &Kind) -> SubscriptionMatcher {
 async fn subscriber(world: Arc<Mutex<World>>, spec: Arc<SubSpec>, st: Arc<Mutex<SubState>>, mut rx: mpsc::UnboundedReceiver<SubscriptionEvent>, ack_tx: watch::Sender<Option<u64>>, seed: u64, rf: u8) {
     let mut rng = Rng::new(seed);
     let mut unacked: Vec<u64> = Vec::new();
+    let mut hold_until: Option<Instant> = None;
+    let mut held_this_window = false;
     loop {
         let ev = match tokio::time::timeout(Duration::from_millis(20), rx.recv()).await {
             Ok(Some(ev)) => Some(ev),
@@ -164,8 +167,22 @@ async fn subscriber(world: Arc<Mutex<World>>, spec: Arc<SubSpec>, st: Arc<Mutex<
                 SubscriptionEvent::Closed { .. } => { st.lock().unwrap().closed = true; return; }
             }
         }
+        // a full window is sometimes left unacknowledged for 100 ms: anything delivered meanwhile exceeds the window
+        if unacked.len() as u64 >= spec.window {
+            match hold_until {
+                None if !held_this_window && rng.chance(1, 3) => {
+                    hold_until = Some(Instant::now() + Duration::from_millis(100));
+                    held_this_window = true;
+                    st.lock().unwrap().full_windows_held += 1;
+                    continue;
+                }
+                Some(t) if Instant::now() < t => continue,
+                _ => hold_until = None,
+            }
+        }
         // acknowledge with random lag and occasional stalls
         if !unacked.is_empty() && (ev_is_none_or(&mut rng) || unacked.len() as u64 >= spec.window) {
+            held_this_window = false;
             let upto = if unacked.len() as u64 >= spec.window || rng.chance(1, 2) { *unacked.last().unwrap() } else { unacked[rng.usize_below(unacked.len())] };
             unacked.retain(|c| *c > upto);
             st.lock().unwrap().last_ack = Some(upto);
@@ -366,6 +383,7 @@ async fn run_case(rep: &mut Report, cx: &mut Ctx<'_>, case_seed: u64, parts: &[P
             rep.violation(&format!("C09:confirmed-event-never-delivered:{kind_name}:{path}"), format!("{} confirmed matching events were not delivered although everything was acknowledged and nothing arrived for 3 s; first missing {:?} [{:?}, window {}, {} delivered]", missing.len(), missing.first(), spec.kind, spec.window, s.count), witness.clone());
         }
         rep.count("deliveries_checked", s.count);
+        rep.count("full_windows_left_unacknowledged_100ms", s.full_windows_held);
         rep.count(&format!("subscriptions.{kind_name}"), 1);
         rep.nontrivial(&(case_seed, format!("{:?}", spec.kind), spec.window));
         if rep.want_sample() && s.count > 3 { rep.sample(witness); }
